@@ -85,7 +85,7 @@ def small_alphabet(n):
 
 
 def run(ctx, only=None):
-    ctx.cov['rule'] = ('inputs (652 spec examples, mutations and splices, random strings over the Markdown-significant alphabet with tabs and non-ASCII, generated '
+    ctx.cov['rule'] = ('inputs (652 spec examples and every prefix of them, mutations and splices, opener + long unclosed run growth probes, random strings over the Markdown-significant alphabet with tabs and non-ASCII, generated '
                        'documents, all strings up to length %d over a 12-symbol alphabet, deep nesting up to 100) x 14 renderer configurations x {str, list of '
                        'lines, file object}; non-trivial = longer than 3 characters; distinct = distinct inputs' % (4 if ctx.quick() else 5))
     rng = random.Random(ctx.seed)
@@ -95,9 +95,31 @@ def run(ctx, only=None):
     texts += inputs.mixed_stream(rng, n) + [docgen.gen_doc(rng, marker_words=True)[0] for _ in range(n // 5)]
     texts += ['>' * d + ' x' for d in (10, 50, 100)] + ['- ' * 40 + 'x', '*' * 200 + 'a' + '*' * 200, '[' * 150 + 'a' + ']' * 150, '<' * 300]
     texts += list(small_alphabet(4 if ctx.quick() else 5))
+    # every prefix of every specification example: constructs cut off at the end of the input (unclosed links, titles, fences, tags ...)
+    pref = set()
+    for t in inputs.spec_texts():
+        step = 1 if (len(t) <= 120 or not ctx.quick()) else 3
+        for i in range(1, len(t), step):
+            pref.add(t[:i])
+            if t[i - 1] != '\n':
+                pref.add(t[:i] + '\n')
+    texts += sorted(pref)
+    ctx.cov['spec_example_prefixes'] = len(pref)
+    # growth probes: an opener followed by a long run that never closes (what catastrophic backtracking or deep recursion needs)
+    openers = ['<b ', '<a', '<a href="x" ', '</b', '<!--', '<?', '<![CDATA[', '<!A', '[', '![', '[a](', '[a](<', '[a](b "', '[a]: ', '[a]: <', '[a]: /u "', '*', '_', '**', '`', '``',
+               '~~', '&', '&#', '\\', '|', '> ', '- ', '1. ', '# ', '```', '    ', '<http://', '<a@', '(', '"', "'"]
+    fillers = ['a', 'a ', ' ', 'a="b" ', "a='b' ", 'a=b ', '\\', '[', ']', '(', ')', '*', '_', '`', '<', '>', '&', '-', '\n', ' \n', 'a\n', '> ', '- ', '*a', '_a ', '[a](', '![', 'a*', '\\*']
+    probes = []
+    for o in openers:
+        for f in fillers:
+            for n in ((24, 60) if ctx.quick() else (24, 60, 200)):
+                probes.append(o + f * n)
+                probes.append('see ' + o + f * n + ' for details')
+    texts += probes
+    ctx.cov['growth_probes'] = len(probes)
     jobs = [(t, i % 3) for i, t in enumerate(texts)]
     with mp.Pool(core.NPROC) as pool:
-        res = pool.map(worker, jobs, chunksize=100)
+        res = pool.map(worker, jobs, chunksize=25)
     nontriv = 0
     for (text, form), bad in zip(jobs, res):
         ctx.count('evaluations')
